@@ -119,6 +119,12 @@ func LexToks(src []byte) []Tok {
 	return out
 }
 
+// Exotic white space (C01 only: the text model of C02 has no CR): what unicode.IsSpace accepts but a blank/tab trim does not.
+var spaceAlphabet = []string{"\r", "\r\n", "\f", "\v", "\u00a0", "\u0085", " \r", "\u2028"}
+
+// activeAlphabet is the alphabet editStates draws from (switched by hx session -alphabet)
+var activeAlphabet = &tokenAlphabet
+
 // Replacement token texts for single-token edits (Typing.tla: ReplaceTok / InsertTok).
 var tokenAlphabet = []string{
 	"x", "var", "self", "count", "each", "true", "null", "0", "1.5", "\"s\"", "\"${", "${", "}", "{", "(", ")", "[", "]",
